@@ -7,6 +7,7 @@ import (
 	"sort"
 	"strings"
 
+	"verif/harness/ref/refjson"
 	"verif/harness/ref/refrpc"
 	"verif/harness/sim"
 )
@@ -30,6 +31,9 @@ type member struct {
 	dup              string // "", "yes" (definitely rejected as duplicate), "maybe"
 	cancelled        string // "", "yes" (a CancelRequest definitely hit it), "maybe"
 	cancelledWaiting bool
+	expired          bool // its base context deadline certainly passed before it could start
+	expiredRan       bool
+	expiredMaybe     bool // assigned while the clock was being advanced: its context may or may not have ended
 }
 
 type record struct {
@@ -45,6 +49,7 @@ type record struct {
 	builtinChecked bool
 	queued         bool // goes through the request queue (not a top-level parse error / empty batch)
 	assignedBy     int  // seq of the quiescent point by which it was certainly assigned (-1 unknown)
+	assignedT      int64
 }
 
 // ServerOptions selects what the checker may assume.
@@ -108,7 +113,7 @@ func ServerCheck(sc sim.Scenario, h *sim.History, opt ServerOptions) []Problem {
 		if m.exitSeq >= 0 {
 			return true
 		}
-		if !m.runs || m.dup == "yes" || m.cancelledWaiting {
+		if !m.runs || m.dup == "yes" || m.cancelledWaiting || m.expired {
 			return true
 		}
 		return false
@@ -133,7 +138,7 @@ func ServerCheck(sc sim.Scenario, h *sim.History, opt ServerOptions) []Problem {
 			n++
 			blocked := false
 			for _, m := range r.members {
-				if m.runs && m.exp.Class == refrpc.Notification && m.dup != "yes" && m.exitSeq < 0 {
+				if m.runs && m.exp.Class == refrpc.Notification && m.dup != "yes" && m.exitSeq < 0 && !m.expired {
 					blocked = true
 				}
 			}
@@ -153,6 +158,17 @@ func ServerCheck(sc sim.Scenario, h *sim.History, opt ServerOptions) []Problem {
 			}
 		}
 	}
+	// uncertainBefore: an earlier notification may or may not still hold the barrier
+	uncertainBefore := func(r *record) bool {
+		for _, o := range recs[:r.idx] {
+			for _, m := range o.members {
+				if m.expiredMaybe {
+					return true
+				}
+			}
+		}
+		return false
+	}
 	// dynamic expectation of a record: the structural one refined by what the
 	// model knows (duplicates, cancellations, races).
 	expFor := func(r *record) (refrpc.Record, []Invocation) {
@@ -164,13 +180,27 @@ func ServerCheck(sc sim.Scenario, h *sim.History, opt ServerOptions) []Problem {
 			switch {
 			case m.dup == "yes":
 				em.Reply, em.Codes, em.Handler = refrpc.ErrorReply, []int{-32600}, false
-			case m.dup == "maybe" || m.cancelled == "maybe":
+			case m.dup == "maybe" || m.cancelled == "maybe" || m.expiredMaybe:
 				if m.exp.Class == refrpc.Call {
 					em.Reply = refrpc.AnyReply
 				}
 				em.DontCare, em.Handler = "race", false
 			case m.cancelledWaiting:
 				em.Reply, em.Codes, em.Handler = refrpc.ErrorReply, []int{-32097}, false
+			case m.builtin && sc.Cfg.BaseDeadlineMs > 0 && m.exp.Class == refrpc.Call:
+				// a built-in waiting for a slot is subject to the base deadline as well
+				em.Reply, em.DontCare = refrpc.AnyReply, "built-in under a base deadline"
+			case m.expired && m.enterSeq >= 0:
+				// it ran although its deadline had passed first: the property is silent
+				if m.exp.Class == refrpc.Call {
+					em.Reply = refrpc.AnyReply
+				}
+				em.DontCare, em.Handler = "ran after its base deadline", false
+			case m.expired:
+				if m.exp.Class == refrpc.Call {
+					em.Reply, em.Codes = refrpc.ErrorReply, []int{-32096}
+				}
+				em.Handler = false
 			}
 			if m.enterSeq >= 0 {
 				invs = append(invs, Invocation{K: m.k, Inv: m.inv, Method: m.exp.Method, ID: m.exp.IDText, Note: m.exp.Class == refrpc.Notification, Ret: m.ret})
@@ -394,6 +424,8 @@ func ServerCheck(sc sim.Scenario, h *sim.History, opt ServerOptions) []Problem {
 	limit := opt.Limit
 	type qInfo struct{ seq, running int }
 	var qInfos []qInfo
+	var suspects [][2]*member
+	advancedSince := false
 	var exitSeqs []int
 	stopped := false
 	lastQuiesce := -1
@@ -451,6 +483,8 @@ func ServerCheck(sc sim.Scenario, h *sim.History, opt ServerOptions) []Problem {
 				finalCheck()
 			}
 			stopped = true
+		case "advance":
+			advancedSince = true
 		case "sending":
 			arrived++
 		case "enter":
@@ -474,7 +508,9 @@ func ServerCheck(sc sim.Scenario, h *sim.History, opt ServerOptions) []Problem {
 			for _, r := range recs[:m.rec] {
 				for _, n := range r.members {
 					if n.runs && n.exp.Class == refrpc.Notification && n.dup != "yes" && n.exitSeq < 0 {
-						add("C03/started-before-earlier-notification-finished", "request nonce %d of record %d (%s) started while notification nonce %d of earlier record %d (%s) had not returned", m.k, m.rec, recs[m.rec].raw, n.k, r.idx, r.raw)
+						// judged at the next quiescent point: the notification may turn out
+						// to have lost its context (base deadline) before it could start
+						suspects = append(suspects, [2]*member{m, n})
 					}
 				}
 			}
@@ -497,6 +533,9 @@ func ServerCheck(sc sim.Scenario, h *sim.History, opt ServerOptions) []Problem {
 				m.ctxDoneSeq, m.ctxDoneErr = e.Seq, e.Err
 			}
 		case "wire":
+			if isPushRequest([]byte(e.Data)) {
+				continue // a server-initiated request, judged by PushCheck
+			}
 			w := pendingWire{[]byte(e.Data), e.Seq}
 			if r := byToken(w.data); r != nil {
 				give(r, w)
@@ -555,35 +594,72 @@ func ServerCheck(sc sim.Scenario, h *sim.History, opt ServerOptions) []Problem {
 				continue
 			}
 			started := startedUpTo()
-			// Duplicate-id resolution for records assigned by now.
-			for _, r := range cur() {
-				if !r.queued || r.idx > started || r.assignedBy >= 0 {
-					continue
-				}
-				r.assignedBy = e.Seq
-				for _, m := range r.members {
-					if !m.reserves || m.exp.IDText == "" {
+			advancedNow := advancedSince
+			for iter := 0; iter < 12; iter++ {
+				before := started
+				// Duplicate-id resolution for records assigned by now.
+				for _, r := range cur() {
+					if !r.queued || r.idx > started || r.assignedBy >= 0 {
 						continue
 					}
-					for _, o := range recs[:r.idx] {
-						for _, om := range o.members {
-							if !om.reserves || om.exp.IDText != m.exp.IDText || om.dup == "yes" {
-								continue
-							}
-							switch {
-							case hasReply(o) && o.wireSeq[0] < r.sentSeq:
-								// finished before this record even arrived: not in flight
-							case !hasReply(o) && om.dup == "" && !pendingMentions(m.exp.IDText):
-								m.dup = "yes" // still unanswered now, so it was in flight when this one was assigned
-							default:
-								if m.dup == "" {
-									m.dup = "maybe"
+					r.assignedBy = e.Seq
+					r.assignedT = e.T
+					for _, m := range r.members {
+						if !m.reserves || m.exp.IDText == "" {
+							continue
+						}
+						for _, o := range recs[:r.idx] {
+							for _, om := range o.members {
+								if !om.reserves || om.exp.IDText != m.exp.IDText || om.dup == "yes" {
+									continue
+								}
+								switch {
+								case hasReply(o) && o.wireSeq[0] < r.sentSeq:
+									// finished before this record even arrived: not in flight
+								case !hasReply(o) && om.dup == "" && !pendingMentions(m.exp.IDText):
+									m.dup = "yes" // still unanswered now, so it was in flight when this one was assigned
+								default:
+									if m.dup == "" {
+										m.dup = "maybe"
+									}
 								}
 							}
 						}
 					}
 				}
+				if base := int64(sc.Cfg.BaseDeadlineMs) * 1e6; base > 0 {
+					for _, r := range cur() {
+						if !r.queued || r.assignedBy < 0 {
+							continue
+						}
+						for _, m := range r.members {
+							if m.runs && m.enterSeq < 0 && !m.expired && m.dup != "yes" && e.T > r.assignedT+base+2e6 {
+								m.expired = true
+							}
+							// assigned (for all we know) during an interval in which the clock
+							// was advanced: its context was created at an unknown moment of it
+							if m.runs && m.enterSeq < 0 && !m.expired && advancedNow && r.assignedBy == e.Seq {
+								m.expiredMaybe = true
+							}
+							if m.enterSeq >= 0 {
+								m.expiredMaybe = false
+							}
+						}
+					}
+					advancedSince = false
+					started = startedUpTo() // expiry may have opened the barrier
+				}
+				if started == before {
+					break
+				}
 			}
+			for _, sp := range suspects {
+				m, n := sp[0], sp[1]
+				if (!n.expired && !n.expiredMaybe) || n.enterSeq >= 0 {
+					add("C03/started-before-earlier-notification-finished", "request nonce %d of record %d (%s) started while notification nonce %d of earlier record %d (%s) had not returned", m.k, m.rec, recs[m.rec].raw, n.k, n.rec, recs[n.rec].raw)
+				}
+			}
+			suspects = nil
 			flush()
 			// Per-record expectations at this quiescent point.
 			running, waiting := 0, 0
@@ -606,7 +682,7 @@ func ServerCheck(sc sim.Scenario, h *sim.History, opt ServerOptions) []Problem {
 					if !isStarted {
 						continue
 					}
-					if m.runs && m.enterSeq < 0 && m.dup == "" && m.cancelled == "" && !m.builtin {
+					if m.runs && m.enterSeq < 0 && m.dup == "" && m.cancelled == "" && !m.builtin && !m.expired && !m.expiredMaybe {
 						waiting++
 					}
 				}
@@ -614,7 +690,7 @@ func ServerCheck(sc sim.Scenario, h *sim.History, opt ServerOptions) []Problem {
 					fmt.Printf("quiesce %d rec %d hasReply=%v started=%v done=%v expects=%v\n", e.Seq, r.idx, hasReply(r), isStarted, recDone(r), expectsReply(r))
 				}
 				switch {
-				case hasReply(r) && !isStarted:
+				case hasReply(r) && !isStarted && !uncertainBefore(r):
 					add("C03/record-answered-before-barrier", "record %d %s was answered although an earlier notification has not returned", r.idx, r.raw)
 				case hasReply(r) && !recDone(r) && !ambiguous(r):
 					add("C01/reply-before-handlers-returned", "record %d %s was answered (%q) while one of its handlers is still running", r.idx, r.raw, r.wire)
@@ -627,7 +703,7 @@ func ServerCheck(sc sim.Scenario, h *sim.History, opt ServerOptions) []Problem {
 				// A built-in call that arrived when every slot was parked must not be
 				// answered before a slot was given back.
 				for _, r := range cur() {
-					if !hasReply(r) || r.builtinChecked {
+					if !hasReply(r) || r.builtinChecked || sc.Cfg.BaseDeadlineMs > 0 {
 						continue
 					}
 					r.builtinChecked = true
@@ -730,7 +806,7 @@ func dedup(s []string) []string {
 
 func ambiguous(r *record) bool {
 	for _, m := range r.members {
-		if m.dup == "maybe" || m.cancelled == "maybe" || m.exp.DontCare != "" {
+		if m.dup == "maybe" || m.cancelled == "maybe" || m.exp.DontCare != "" || m.expiredMaybe {
 			return true
 		}
 	}
@@ -802,4 +878,18 @@ func nonceOf(params []byte) int {
 		}
 	}
 	return -1
+}
+
+// isPushRequest: the outbound record is a request object (it has a method).
+func isPushRequest(data []byte) bool {
+	ms, ok := refjson.Members(data)
+	if !ok {
+		return false
+	}
+	for _, m := range ms {
+		if m.Key == "method" {
+			return true
+		}
+	}
+	return false
 }
